@@ -104,9 +104,10 @@ def run(ctx):
         "get_annotations_after_take_args", "invocations::compile_invocation")
     tv = F.find1("cairo_lang_sierra::edit_state::EditState", "OrderedHashMap", "::take_vars")
     # typestate: the lookup that consumes must be a removing method
-    removing = [c for c in tv.calls() if c.name() in ("swap_remove", "shift_remove", "remove")
+    tvg = [tv] + F.closures_of(tv)
+    removing = [c for h in tvg for c in h.calls() if c.name() in ("swap_remove", "shift_remove", "remove")
                 and ("OrderedHashMap" in c.path or "IndexMap" in c.path)]
-    nonremoving = [c for c in tv.calls() if c.name() in ("get", "get_mut", "contains_key", "get_index_of")
+    nonremoving = [c for h in tvg for c in h.calls() if c.name() in ("get", "get_mut", "contains_key", "get_index_of")
                    and ("OrderedHashMap" in c.path or "IndexMap" in c.path)]
     ctx.ob("R15.linear", "take_vars:removing-op", len(removing) == 1 and not nonremoving,
            "consumption uses %s" % ([c.name() for c in removing + nonremoving]), tv.where())
